@@ -1,0 +1,19 @@
+//go:build verif
+
+// Contracts for the sgn0 helpers of hash-to-curve on the twist over Fp (RFC 9380 4.1), comment-only; see the
+// G1 file of this package for the conventions.
+
+package hash_to_curve
+
+//@ func G2Sgn0
+//@ option field fp
+//@ requires val(z) < q
+//@ ensures[value] result == reg(val(z)) % 2
+//@ modifies nothing
+//@ end
+
+//@ func G2NotZero
+//@ option field fp
+//@ ensures[value] (result == 0) == (val(x) == 0)
+//@ modifies nothing
+//@ end
